@@ -100,6 +100,78 @@ type trace struct {
 	failed bool
 	// the trace leaves the Coq model (CloseProposal, council change): oracle only
 	noModel bool
+	// oracle snapshots, one per block() call, for rollback()
+	snaps []snapT
+}
+
+type psnapT struct {
+	elig, paid map[int]bool
+	paidSum    *big.Int
+	lastSt     state.ProposalStatus
+	seen       bool
+}
+
+type snapT struct {
+	h       uint32
+	nblocks int
+	npaid   int
+	props   map[int]psnapT
+}
+
+func copyBoolMap(m map[int]bool) map[int]bool {
+	r := map[int]bool{}
+	for k, v := range m {
+		r[k] = v
+	}
+	return r
+}
+
+func (t *trace) snapshot() {
+	sn := snapT{h: t.h, nblocks: len(t.blocks), npaid: t.npaid, props: map[int]psnapT{}}
+	for pid, p := range t.props {
+		sn.props[pid] = psnapT{copyBoolMap(p.elig), copyBoolMap(p.paid), new(big.Int).Set(p.paidSum), p.lastSt, p.seen}
+	}
+	t.snaps = append(t.snaps, sn)
+}
+
+// rollback detaches the last k blocks with the real Committee.RollbackTo and
+// puts the oracle and the emitted Coq trace back to the block sequence that
+// remains: what follows is compared with the model run on the ACTIVE chain
+// only (the linear sequence prefix + new blocks), so an undo step that also
+// forgets something an earlier, still connected block did shows up as a
+// difference.  Returns false when the trace is too short.
+func (t *trace) rollback(k int) bool {
+	if k <= 0 || len(t.snaps) == 0 || t.h < uint32(k) || t.h-uint32(k) <= t.snaps[0].h {
+		return false
+	}
+	target := t.h - uint32(k)
+	idx := -1
+	for i, sn := range t.snaps {
+		if sn.h == target {
+			idx = i
+		}
+	}
+	if idx < 0 {
+		return false
+	}
+	if pk, _ := lib.Recover(func() { _ = t.env.Committee.RollbackTo(target) }); pk {
+		t.fail("C29:rollback-panic", "Committee.RollbackTo panicked", map[string]interface{}{"to": target})
+	}
+	sn := t.snaps[idx]
+	for pid, p := range t.props {
+		if ps, ok := sn.props[pid]; ok {
+			p.elig, p.paid, p.paidSum, p.lastSt, p.seen = copyBoolMap(ps.elig), copyBoolMap(ps.paid), new(big.Int).Set(ps.paidSum), ps.lastSt, ps.seen
+		} else {
+			p.elig, p.paid, p.paidSum, p.lastSt, p.seen = map[int]bool{}, map[int]bool{}, new(big.Int), 0, false
+		}
+	}
+	t.blocks = t.blocks[:sn.nblocks]
+	t.npaid = sn.npaid
+	t.snaps = t.snaps[:idx+1]
+	t.h = target
+	t.log = append(t.log, map[string]interface{}{"rollback_to": target})
+	t.st.Hist[fmt.Sprintf("rollback:%d", k)]++
+	return true
 }
 
 func newParams(v1 bool, term bool) *config.Configuration {
@@ -294,6 +366,10 @@ func budgetsOf(p *pinfo) map[int]int64 {
 // block checks the candidates as checkTxsContext does, forms the block of the
 // accepted ones, runs CheckDuplicateTx and, if it passes, ProcessBlock.
 func (t *trace) block(cands []cand) {
+	if len(t.snaps) == 0 {
+		t.snapshot()
+	}
+	defer t.snapshot()
 	cm := t.env.Committee
 	h := t.h + 1
 	thr := int64(common.Fixed64(float64(cm.CirculationAmount) * t.env.Params.CRConfiguration.VoterRejectPercentage / 100.0))
@@ -732,6 +808,25 @@ func (r *runner) corpus() {
 		t.block([]cand{{Kind: "withdraw", Pid: 1, Auto: true}})
 		r.finish(t, "corpus:lifecycle", true)
 
+		// 1b. reorganisations around withdrawals: the last withdrawal is detached
+		// (its undo must not forget stages paid by earlier, still connected
+		// blocks), then the chain continues; deeper variant detaches the tracking too
+		for _, depth := range []int{1, 2, 3} {
+			t = r.newTrace(stdCfg(v1))
+			t.toVoterAgreed(1, bs)
+			t.block([]cand{{Kind: "withdraw", Pid: 1, Auto: true}})
+			t.block([]cand{{Kind: "track", Pid: 1, A: 1, B: 1}})
+			t.block([]cand{{Kind: "withdraw", Pid: 1, Auto: true}})
+			t.rollback(depth)
+			t.block(nil)
+			t.block([]cand{{Kind: "withdraw", Pid: 1, Auto: true}})
+			t.block([]cand{{Kind: "track", Pid: 1, A: 1, B: 1}, {Kind: "withdraw", Pid: 1, Auto: true}})
+			t.block([]cand{{Kind: "withdraw", Pid: 1, Auto: true}})
+			t.rollback(1)
+			t.block([]cand{{Kind: "withdraw", Pid: 1, Auto: true}})
+			r.finish(t, "corpus:reorg-withdraw", true)
+		}
+
 		// 2. two withdrawals of one proposal in one block (was accepted and paid twice before the repair)
 		t = r.newTrace(stdCfg(v1))
 		t.toVoterAgreed(1, bs)
@@ -829,6 +924,7 @@ func (r *runner) random(rng *lib.Rng, n int) {
 			specs[p] = mkBudgets(rng.Chance(70), rng.Range(1, 5), amtf)
 		}
 		nb := rng.Range(8, 16)
+		rbk := rng.Fork()
 		for b := 0; b < nb; b++ {
 			var cs []cand
 			for k := rng.Intn(4); k > 0; k-- {
@@ -869,6 +965,9 @@ func (r *runner) random(rng *lib.Rng, n int) {
 				}
 			}
 			t.block(cs)
+			if !c.Term && b >= 7 && rbk.Chance(15) {
+				t.rollback(rbk.Range(1, 3))
+			}
 		}
 		r.finish(t, "random", true)
 	}
